@@ -229,7 +229,7 @@ def run_case_files(name, preamble, case_terms, checker, per_file=300, timeout=90
     files = []
     for k in range(0, max(1, (len(case_terms) + per_file - 1) // per_file)):
         chunk = case_terms[k * per_file:(k + 1) * per_file]
-        fn = os.path.join(cdir, f"{name}_{k}.v")
+        fn = os.path.join(cdir, f"{name}_p{os.getpid()}_{k}.v")        # per-process names: two runs never share a case file
         with open(fn, "w") as f:
             f.write(preamble + "\n")
             f.write("Definition cases := [\n" + ";\n".join(chunk) + "\n].\n")
